@@ -179,13 +179,39 @@ class Prop(PropBase):
         fmt = case['fmt']
         injected = any(case.get(k) for k in ('drop_write_key', 'no_write', 'write_none', 'fetch_path')) \
             or case.get('path') is None
-        if injected or obs['fp'][0] != 'ok':
+        # The reference "formatted payload".  Where python's own string.Formatter can decide
+        # every string node (literal text, {{ }} escapes, plain {name} references to plain
+        # scalars) that stdlib result is the reference - no pypyr code, no model involved;
+        # elsewhere it is the real Context.get_formatted_value (a consistency relation).
+        std = 'fp_std' in obs
+        if injected or (obs['fp'][0] != 'ok' and not std):
             return out
-        fp = obs['fp'][1]
+        fp = obs['fp_std'] if std else obs['fp'][1]
         if not R.representable(fmt, fp):
             return out
+        if std and obs['fp'][0] != 'ok':
+            out.append(fail('every-string-node-formatted',
+                            f'{fmt}: formatting the payload raised {obs["fp"][1:]}; by str.format rules it '
+                            f'formats to {fp!r}', 'payload-format-raises'))
+            return out
+        if std and not R.same(obs['fp'][1], fp):
+            out.append(fail('every-string-node-formatted',
+                            f'{fmt}: the payload formats to {obs["fp"][1]!r}; python\'s string.Formatter gives '
+                            f'{fp!r} for the same string nodes', 'string-node-not-formatted'))
+        # what the step wrote, parsed directly
+        zp = obs.get('file_parsed')
+        if zp is not None and obs['write'][0] == 'ok':
+            if zp[0] != 'ok':
+                out.append(fail('written-file', f'{fmt}: the written file does not parse: {zp[1:]}',
+                                classify(fmt, fp, f'{fmt}-written-unparsable')))
+            elif not R.same(zp[1], fp):
+                out.append(fail('written-equals-formatted-payload',
+                                f'{fmt}: the file written holds {zp[1]!r}, the formatted payload is {fp!r}',
+                                classify(fmt, fp, f'{fmt}-written-differs')))
         # the third-party codec law on this payload (hypothesis instance)
-        if 'rt_ok' in obs and not obs['rt_ok']:
+        if obs['fp'][0] == 'ok' and not R.representable(fmt, obs['fp'][1]):
+            pass
+        elif 'rt_ok' in obs and not obs['rt_ok']:
             out.append(fail('codec-law', f'{fmt}: parse(print v) != v for the formatted payload {fp!r}: '
                                          f'got {obs["oracle"].get("parse")!r}',
                             classify(fmt, fp, f'{fmt}-codec-law')))
@@ -251,6 +277,13 @@ class Prop(PropBase):
         if case.get('no_infile') or o['in_parsed'][0] != 'ok' or obs.get('expected', ['err'])[0] != 'ok':
             return out
         exp = obs['expected'][1]
+        if 'expected_std' in obs:
+            # python's own formatter decides every string node of this document: use that
+            if not R.same(exp, obs['expected_std']):
+                out.append(fail('every-string-node-formatted',
+                                f'{fmt}: node-wise formatting gives {exp!r}; python\'s string.Formatter gives '
+                                f'{obs["expected_std"]!r}', 'string-node-not-formatted'))
+            exp = obs['expected_std']
         if R.has_tag(exp, 'other') or R.has_tag(o['in_parsed'][1], 'other'):
             return out
         doc_ok = {'json': lambda v: R.plain_data(v, True, True),
